@@ -40,7 +40,15 @@ def _usd():
     return USD
 
 
-def build(rng, mix, n=12, consistent=True):
+def _frozen(rng, markets, prices_row, quote_token, assets, timestamp):
+    """a token the wallet holds nothing of is, half of the time, not registered in the wallet at all (the broker creates
+    the entry when something is first credited)"""
+    if rng is not None:
+        assets = {k: v for k, v in assets.items() if v != 0 or rng.random() < 0.5}
+    return Dr.Frozen(markets, prices_row, quote_token, assets, timestamp)
+
+
+def build(rng, mix, n=12, consistent=True, drop_zero_assets=False):
     from demeter import TokenInfo
 
     start = W.T0
@@ -73,7 +81,7 @@ def build(rng, mix, n=12, consistent=True):
                 assets.setdefault(t, Decimal(0))
                 assets[t] += Decimal(rng.choice([0, 10, 5000]))
         pdf["USD"] = Decimal(1)
-        fz = Dr.Frozen(markets, pdf.iloc[0], quote, assets, uw.index[0])
+        fz = _frozen(rng if drop_zero_assets else None, markets, pdf.iloc[0], quote, assets, uw.index[0])
         sc = Scene(mix, fz, kits, uw.index, pdf, info)
         sc.broker_kit = G.BrokerKit(list(assets.keys()))
         return sc
@@ -84,7 +92,7 @@ def build(rng, mix, n=12, consistent=True):
         pdf = aw.prices.copy()
         pdf["USD"] = Decimal(1)
         assets = {t: Decimal(rng.choice([0, 5, 1000, 10**6])) for t in aw.tokens}
-        fz = Dr.Frozen([am], pdf.iloc[0], _usd(), assets, aw.index[0])
+        fz = _frozen(rng if drop_zero_assets else None, [am], pdf.iloc[0], _usd(), assets, aw.index[0])
         sc = Scene(mix, fz, [G.AaveKit(am, aw)], aw.index, pdf, info)
         sc.broker_kit = G.BrokerKit(list(assets.keys()))
         return sc
@@ -99,7 +107,7 @@ def build(rng, mix, n=12, consistent=True):
         pdf["USD"] = Decimal(1)
         weth, osqth = TokenInfo("weth", 18), TokenInfo("osqth", 18)
         assets = {weth: Decimal(rng.choice([0, 1, 40, 5000])), osqth: Decimal(rng.choice([0, 0, 30]))}
-        fz = Dr.Frozen([um, sm], pdf.iloc[0], _usd(), assets, sw.index[0])
+        fz = _frozen(rng if drop_zero_assets else None, [um, sm], pdf.iloc[0], _usd(), assets, sw.index[0])
         info["premium"] = prem
         return Scene(mix, fz, [G.SqueethKit(sm, um), G.SqueethKit(sm, um), G.UniKit(um)], sw.index, pdf, info)
     if mix == "deribit":
@@ -113,7 +121,7 @@ def build(rng, mix, n=12, consistent=True):
         pdf = pd.DataFrame({token: dw.minute_prices(index)}, index=pd.DatetimeIndex(index))
         pdf["USD"] = Decimal(1)
         assets = {dm.token: Decimal(rng.choice([0, 1, 200]))}
-        fz = Dr.Frozen([dm], pdf.iloc[0], _usd(), assets, index[0])
+        fz = _frozen(rng if drop_zero_assets else None, [dm], pdf.iloc[0], _usd(), assets, index[0])
         if rng.random() < 0.8:
             Dr.call_op(dm.deposit, assets[dm.token] / 2)
         return Scene(mix, fz, [G.DeribitKit(dm, dw)], index, pdf, info)
@@ -123,7 +131,7 @@ def build(rng, mix, n=12, consistent=True):
         pdf = gw.prices()
         pdf["USD"] = Decimal(1)
         assets = {t: Decimal(rng.choice([0, 3, 2000])) for t in gw.tokens}
-        fz = Dr.Frozen([gm], pdf.iloc[0], _usd(), assets, gw.index[0])
+        fz = _frozen(rng if drop_zero_assets else None, [gm], pdf.iloc[0], _usd(), assets, gw.index[0])
         return Scene(mix, fz, [G.GmxKit(gm, gw)], gw.index, pdf, info)
     if mix == "gmx2":
         g2 = W.Gmx2World(rng, n=n)
@@ -131,6 +139,6 @@ def build(rng, mix, n=12, consistent=True):
         pdf = g2.prices()
         pdf["USD"] = Decimal(1)
         assets = {g2.long: Decimal(rng.choice([0, 5, 3000])), g2.short: Decimal(rng.choice([0, 10**4, 10**7]))}
-        fz = Dr.Frozen([m2], pdf.iloc[0], _usd(), assets, g2.index[0])
+        fz = _frozen(rng if drop_zero_assets else None, [m2], pdf.iloc[0], _usd(), assets, g2.index[0])
         return Scene(mix, fz, [G.Gmx2Kit(m2, g2)], g2.index, pdf, info)
     raise ValueError(mix)
